@@ -496,6 +496,43 @@ class Tr:
                 out.append(a)
         return out
 
+    def default_from_decl(self, cname, i):
+        """default argument read from the declarations of the callee in the AST (the definition usually carries none): every
+        declaration of that name with the same number of parameters that has a default for parameter i must agree, and the
+        default must be a literal (nullptr, integer, boolean)"""
+        from .registry import R
+        from . import ast as A_
+        r = R.get(cname)
+        if r is None:
+            return None
+        try:
+            ex = self.ctx.extractor
+            node = ex.node(cname)
+            decls = A_.find_decls(ex.cfg, r['filt'], A_.FUNC_KINDS, src=ex.src)
+        except Exception:
+            return None
+        np = len([p for p in node.get('inner', []) if p.get('kind') == 'ParmVarDecl'])
+        found = set()
+        for d in decls:
+            if d.get('name') != r['name']:
+                continue
+            pv = [p for p in d.get('inner', []) or [] if p.get('kind') == 'ParmVarDecl']
+            if len(pv) != np or i >= len(pv):
+                continue
+            init = [c for c in pv[i].get('inner', []) or [] if isinstance(c, dict) and 'Expr' in c.get('kind', '') or isinstance(c, dict) and 'Literal' in c.get('kind', '')]
+            if not init:
+                continue
+            e = strip(init[0])
+            if e.get('kind') == 'ImplicitCastExpr' and e.get('castKind') == 'NullToPointer':
+                e = strip(e['inner'][-1])
+            if e.get('kind') in ('CXXNullPtrLiteralExpr', 'GNUNullExpr', 'IntegerLiteral', 'CXXBoolLiteralExpr'):
+                found.add(self.e(e))
+            else:
+                return None
+        if len(found) == 1:
+            return found.pop()
+        return None
+
     def pass_arg(self, a, ptype):
         mode, ct = pass_mode(ptype)
         if mode == 'ptr':
@@ -517,6 +554,8 @@ class Tr:
         for i, a in enumerate(argn):
             if a.get('kind') == 'CXXDefaultArgExpr':
                 d = stdmodel.default_arg(cname, i)
+                if d is None:
+                    d = self.default_from_decl(cname, i)
                 if d is None:
                     self.bad('default argument %d of %s' % (i, name), n)
                 outs.append(d); continue
@@ -562,6 +601,8 @@ class Tr:
         for i, a in enumerate(argn):
             if a.get('kind') == 'CXXDefaultArgExpr':
                 d = stdmodel.default_arg(cname, i)
+                if d is None:
+                    d = self.default_from_decl(cname, i)
                 if d is None:
                     self.bad('default argument %d of %s' % (i, name), n)
                 outs.append(d); continue
